@@ -84,7 +84,8 @@ def main(chk):
     for i, kinds in enumerate(KINDSETS):
         jobs.append((kinds, 2, 0, os.path.join(chk.work, "tlc%d" % i), chk.seed + 1, 1500))
         if not chk.quick:
-            jobs.append((kinds, 3, 2500 if kinds == ["select"] else 1500, os.path.join(chk.work, "tlc3_%d" % i), chk.seed + 1, 3000))
+            # Depth 3 over 5 (select) / 4 (others) randomly chosen productions per dimension: all their three-way combinations
+            jobs.append((kinds, 3, 5 if kinds == ["select"] else 4, os.path.join(chk.work, "tlc3_%d" % i), chk.seed + 1, 3000))
     derivs, runs = {}, []
     states = trans = 0
     with ThreadPoolExecutor(max_workers=max(1, min(4, tlc.NPROC))) as ex:
